@@ -312,6 +312,14 @@ def case_adjoint(case):
     ok, d = close(Sg.T @ K @ Sg, K)
     if not ok:
         v.append({"key": "adjoint/sln_adjoint/killing-form", "msg": "Ad(g)^T K Ad(g) != K at g=%s (residual %.3g)" % (fmt(g), d)})
+    # the trace form tr(XY) on gl(n) (basis E_ij at i*n+j) is invariant under the GL(n) adjoint
+    Kg = np.zeros((n * n, n * n))
+    for i_ in range(n):
+        for j_ in range(n):
+            Kg[i_ * n + j_, j_ * n + i_] = 1.0
+    ok, d = close(Gg.T @ Kg @ Gg, Kg)
+    if not ok:
+        v.append({"key": "adjoint/gln_adjoint/trace-form", "msg": "Ad(g)^T K Ad(g) != K on gl(n) at g=%s (residual %.3g)" % (fmt(g), d)})
     # homomorphism against every h of the alphabet
     nbad = 0
     for h in alpha:
